@@ -58,7 +58,22 @@ def _size_only_params(fn: ast.FunctionDef):
             if not (isinstance(q, ast.If) and p in {n.id for n in ast.walk(q.test) if isinstance(n, ast.Name)} and "None" in src(q.test)):
                 ok_stores = False
         if "value" not in kinds and "size" in kinds and ok_stores:
-            out.append((p, [u for u, k in zip(uses, kinds) if k == "size"]))
+            # only when the size is turned into an enumeration / array of positions (arange(len(p)), range(len(p)), zeros(len(p)) ...):
+            # the function then works on positions 0..len(p)-1 where the caller meant the VALUES of p.  A helper that merely reports
+            # or checks a size is not concerned.
+            enum = False
+            for u, k in zip(uses, kinds):
+                if k != "size":
+                    continue
+                q = parents.get(u)
+                hops = 0
+                while q is not None and hops < 4 and not isinstance(q, ast.stmt):
+                    if isinstance(q, ast.Call) and src(q.func).split(".")[-1] in ("arange", "range", "zeros", "ones", "empty", "full", "linspace", "eye"):
+                        enum = True
+                    q = parents.get(q)
+                    hops += 1
+            if enum:
+                out.append((p, [u for u, k in zip(uses, kinds) if k == "size"]))
     return out
 
 
@@ -200,9 +215,14 @@ def check_dispatch_keys(ctx, repo: Repo, pid: str, module_names: List[str], repo
             n += 1
             if lit in passed[param] or rel not in rep:
                 continue
+            # a key nobody passes yet is dead code, not a defect; a NEAR-MISS of a key that callers do pass is a mistyped key
+            import difflib
+            near = [q for q in passed[param] if difflib.SequenceMatcher(None, lit, q).ratio() >= 0.8]
+            if not near:
+                continue
             bad += 1
-            ctx.violate("DISPATCHKEY", f"{pid}.dispatchkey", f"the key {lit!r} handled for `{param}` is never passed by any caller: callers "
-                        f"use {sorted(passed[param])}; a request with the callers' spelling misses this branch and is served by the fallback",
+            ctx.violate("DISPATCHKEY", f"{pid}.dispatchkey", f"the key {lit!r} handled for `{param}` is never passed by any caller but is a near-miss of "
+                        f"{near[0]!r}, which callers do pass: a request with the callers' spelling misses this branch and is served by the fallback",
                         where, f"{param} == {lit!r}", witness=f"handled {sorted(l for l, _, _ in hs)}; passed {sorted(passed[param])}")
     ctx.instance("DISPATCHKEY", n + 1)
     if bad == 0:
